@@ -175,3 +175,49 @@ def c01_vacuum(ctx, n):
     # default gravity is standard gravity (9.80665 m/s^2 in ft/s^2), 2e-7 relative
     g_std = F(980665, 100000) / F(3048, 10000)
     ctx.check('standard_gravity_default', abs(F(-tcpkg.cGravityConstant) - g_std) <= g_std * F(2, 10 ** 7))
+
+
+def _cfg_vfire(tier):
+    out = []
+    K = 12 if tier == 'quick' else 40
+    plan = [('A', 100.0, 5.0), ('C', 100.0, 30.0)] if tier == 'quick' else [('A', 100.0, 5.0), ('C', 100.0, 30.0), ('B', 60.0, -8.0), ('A', 30.0, 12.0), ('A', 0.5, 3.0)]
+    for (c, step, rel) in plan:
+        rmax = K * step / 2 * 0.9
+        for i in range(2 if tier == 'quick' else 6):
+            n = 2 if tier == 'quick' else 6
+            out.append({'carrier': c, 'step_ft': step, 'relative_deg': rel, 'rlo': max(rmax * i / n, step * 1.01), 'rhi': rmax * (i + 1) / n})
+    return out
+
+
+@harness('C01.vacuum_fire', 'C01', configs=_cfg_vfire, functions=FUNCS + ['py_ballisticcalc.conditions.Vacuum.__init__'], cost=10,
+         engine_opts={'div_check': False, 'nl_axioms_in_feasibility': False},
+         must_reach=['check:vacuum_rows_on_parabola_within_discretisation_term', 'altitude_excursion_over_30ft'],
+         bounds='the real Calculator.fire with the real Vacuum atmosphere on carriers A (5 deg), C (30 deg) [thorough: + B downhill, finer A, default step] with SYMBOLIC range and record step: '
+                'every row (interpolated rows are terms in the request) vs the closed-form parabola under the configured gravity; horizon K <= 12 / 40 steps; altitude excursion > 30 ft',
+         assumptions=['tolerance = the exact discretisation term of C01.vacuum bounded by |g|*(step/2)*t/2 plus the chord error of the linear row interpolation (g*dt^2/8) plus 1e-9'])
+def c01_vacuum_fire(ctx, carrier, step_ft, relative_deg, rlo, rhi):
+    import math
+    from harness import carriers
+    p = pybc()
+    U = p.Unit
+    calc, shot = carriers.make(carrier, step_ft, 'none', relative_deg=relative_deg, vacuum=True)
+    R = ctx.real('range_ft', rlo, rhi)
+    S = ctx.real('record_step_ft', step_ft, max(rhi, step_ft))
+    rows = calc.fire(shot, U.Foot(R), U.Foot(S)).trajectory
+    g = calc._calc._config.cGravityConstant
+    e = shot.barrel_elevation >> U.Radian
+    v0 = shot.ammo.mv >> U.FPS
+    vx, vy = v0 * math.cos(e), v0 * math.sin(e)
+    y0 = -(shot.weapon.sight_height >> U.Foot)
+    dtmax = (step_ft / 2) / max(1.0, v0 * 0.5)
+    if abs(vy * (rhi / vx)) > 30:
+        ctx.reach('altitude_excursion_over_30ft')
+    for k, r in enumerate(rows):
+        t = r.time
+        x = r.distance >> U.Foot
+        y = r.height >> U.Foot
+        tol = abs(g) * (step_ft / 2) / max(1.0, v0 * 0.5) * t / 2 + abs(g) * dtmax * dtmax / 8 + 1e-9
+        ctx.check('vacuum_rows_on_parabola_within_discretisation_term',
+                  (ctx.abs(x - vx * t) <= 1e-9 * (1 + ctx.abs(x))) & (ctx.abs(y - (y0 + vy * t + g * t * t / 2)) <= tol), info={'row': k})
+        ctx.check('vacuum_speed_is_closed_form', ctx.abs((r.velocity >> U.FPS) * (r.velocity >> U.FPS) - (vx * vx + (vy + g * t) * (vy + g * t)))
+                  <= 1e-6 * v0 * v0 + 2 * abs(g) * dtmax * v0, info={'row': k})
